@@ -199,7 +199,7 @@ theorem tuple_variant_list_cell :
 /-! ### capacity errors (outside `blameDT`: the mapping is defined) are reported by the builder that owns the counter -/
 
 def isFlatOwner : B → Bool
-  | .bytes _ _ _ _ _ | .bytesView _ _ _ _ _ | .dictionary _ _ _ _ => true
+  | .bytes _ _ _ _ _ | .bytesView _ _ _ _ _ => true
   | _ => false
 
 /-- the scalar calls (`serialize_unit_struct` is none any more: since repo fix ae2fc46 its default forwards to
@@ -216,13 +216,22 @@ annotated with the list's own path and label (never with the child's, never with
 `push_error_deepest` (every annotated error is the own failure of some builder of the subtree) this locates every offset
 overflow of a list at the list.
 (2) The flat owners of a capacity-limited counter — `Utf8` / `Binary` builders (data offsets), view builders (lengths
-and buffer offsets beyond `i32::MAX`), dictionary builders (the key type's range; the key conversion runs inside the
-dictionary's own `serialize_*`, un-annotated) — annotate EVERY error of a scalar call with their own path and label.
+and buffer offsets beyond `i32::MAX`) — annotate EVERY error of a scalar call with their own path and label.
 (3) Map builders, the other owners of an offsets vector: on a map (`serialize_map` + entries + `end`) the map builder's
 own code fails only with `offset overflow`, only when the last offset plus the number of entries really exceeds
 `i32::MAX`, and then the error is annotated with the map's own path and `Map(..)` — not with the keys' / values' /
 entries' position.
-(4) `ListBuilder::serialize_bytes` (every byte an element): the same as (1) with the number of bytes. -/
+(4) `ListBuilder::serialize_bytes` (every byte an element): the same as (1) with the number of bytes.
+(5) Dictionary builders (corrected 2026-09-29: the key and the value child are the innermost fields being processed while
+the dictionary builder feeds them).  An annotated error of a scalar call on a dictionary builder is
+  * the dictionary's own — `{p}` / `Dictionary(..)` — exactly for a call without a string form (its own code refuses it), or
+  * for a call with the string form `s`: the error of `self.values.serialize_str(s)`, with the annotation the VALUE
+    builder's wrapper (or a builder below it) gave it — a string the value type cannot take, the value builder's
+    capacity —, or the error of `idx.serialize(Mut(self.indices))`, with the annotation of the KEY builder's wrapper;
+  and the key builder `build_builder` constructs (an integer leaf of type `t` at `{p}.key`) fails on the index `i` only
+  with `out of range integral type conversion attempted`, only when `i` is outside the key type's range (more distinct
+  values than the key type holds), under `{p}.key` and the key type's label — what the crate does
+  (`Dictionary(Int8, Utf8)`, 200 distinct strings: `field: "$.d.key"`, `data_type: "Int8"`). -/
 theorem C18_capacity_blame (ext : Ext) [ExtPlain ext] :
     (∀ (p : String) (large : Bool) (fm : FieldMeta) (v : Validity) (offs : List Int) (el : B) (xs : SVals) (x : SVal)
       (msg : String), x = .seq xs ∨ x = .tuple xs ∨ (∃ nm, x = .tupleStruct nm xs) → WFH (.list p large fm v offs el) →
@@ -241,8 +250,18 @@ theorem C18_capacity_blame (ext : Ext) [ExtPlain ext] :
       WFH (.list p large fm v offs el) → callBody ext (.list p large fm v offs el) (.val (.bytes bs)) = .error (.err msg) →
       msg = "offset overflow" ∧ ((dec el).length : Int) + bs.length > offMax large ∧
       push ext (.list p large fm v offs el) (.bytes bs) =
-        .error (.errCtx "offset overflow" [("data_type", if large then "LargeList" else "List"), ("field", p)])) := by
-  refine ⟨?_, ?_, ?_, ?_⟩
+        .error (.errCtx "offset overflow" [("data_type", if large then "LargeList" else "List"), ("field", p)])) ∧
+    ((∀ (p : String) (idx vals : B) (index : List String) (x : SVal) (msg : String) (ann : List (String × String)),
+      isScalarCall x = true → push ext (.dictionary p idx vals index) x = .error (.errCtx msg ann) →
+      (scalarToString ext x = none ∧ ann = [("data_type", "Dictionary(..)"), ("field", p)]) ∨
+      (∃ s, scalarToString ext x = some s ∧
+        (ctx vals.ann (pushScalar ext vals (.str s)) = .error (.errCtx msg ann) ∨
+         ∃ i : Nat, i ≤ index.length ∧ ctx idx.ann (pushScalar ext idx (.int .u64 i)) = .error (.errCtx msg ann)))) ∧
+     (∀ (kp : String) (t : IntTy) (v : Validity) (ivals : List Int) (i : Nat) (msg : String) (ann : List (String × String)),
+      ctx (B.leaf kp (.int t) v ivals).ann (pushScalar ext (.leaf kp (.int t) v ivals) (.int .u64 i)) = .error (.errCtx msg ann) →
+      msg = "out of range integral type conversion attempted" ∧ t.inRange i = false ∧
+      ann = [("data_type", (B.leaf kp (.int t) v ivals).label), ("field", kp)])) := by
+  refine ⟨?_, ?_, ?_, ?_, ?_, ?_⟩
   · intro p large fm v offs el xs x msg hx hw hbody
     have hw' := hw
     simp only [WFH] at hw'
@@ -284,7 +303,9 @@ theorem C18_capacity_blame (ext : Ext) [ExtPlain ext] :
       cases e with
       | err m => simp [SaModel.ctx, B.ann] at h; exact h.2.symm
       | panic s => cases h
-      | errCtx m a => exact absurd hr ((pushScalar_noctx ext b x).out m a)
+      | errCtx m a =>
+        have hnd : b.isDict = false := by cases b <;> first | rfl | simp [isFlatOwner] at hb
+        exact absurd hr ((pushScalar_noctx ext b x hnd).out m a)
   · intro p mm v offs ks vs es msg hw hbody
     have hw' := hw
     simp only [WFH] at hw'
@@ -321,14 +342,100 @@ theorem C18_capacity_blame (ext : Ext) [ExtPlain ext] :
     obtain ⟨rfl, _⟩ := hres
     rw [own_failure_blames_self ext _ (.bytes bs) _ (by intro v' h; cases h) (by intro n' v' h; cases h) hbody]
     rfl
+  · intro p idx vals index x msg ann hx h
+    have hform : push ext (.dictionary p idx vals index) x =
+        ctx (B.dictionary p idx vals index).ann (pushScalar ext (.dictionary p idx vals index) x) := by
+      cases x <;> simp [isScalarCall] at hx <;> (unfold push; rfl)
+    rw [hform] at h
+    unfold pushScalar at h
+    simp only at h
+    cases hs : scalarToString ext x with
+    | none =>
+      left
+      simp only [hs, notSupported, SaModel.fail, SaModel.ctx, B.ann] at h
+      simp at h
+      exact ⟨rfl, h.2.symm⟩
+    | some s =>
+      right
+      refine ⟨s, rfl, ?_⟩
+      simp only [hs] at h
+      -- an annotated error of a child passes the dictionary's own wrapper unchanged; a plain error cannot come out of a
+      -- child's wrapper
+      have hpass : ∀ {α} (r : R α), ctx (B.dictionary p idx vals index).ann r = .error (.errCtx msg ann) →
+          (∀ m, r ≠ .error (.err m)) → r = .error (.errCtx msg ann) := by
+        intro α r hr hnp
+        cases r with
+        | ok v => cases hr
+        | error e =>
+          cases e with
+          | err m => exact absurd rfl (hnp m)
+          | panic s => cases hr
+          | errCtx m a => exact hr
+      have hkey : ∀ i : Int, ∀ m, ctx idx.ann (pushScalar ext idx (.int .u64 i)) ≠ .error (.err m) := fun i m => by
+        rw [ann_eq_posAnn]; exact ctx_never_plain _ _ _
+      have hval : ∀ m, ctx vals.ann (pushScalar ext vals (.str s)) ≠ .error (.err m) := fun m => by
+        rw [ann_eq_posAnn]; exact ctx_never_plain _ _ _
+      cases hix : indexOfName index s with
+      | some i =>
+        simp only [hix] at h
+        have hlt := Build.indexOfName_lt hix
+        have h' := hpass _ h (by
+          intro m hm
+          rcases bind_err_plain hm with h1 | ⟨_, _, h2⟩
+          · exact hkey _ m h1
+          · cases h2)
+        right
+        refine ⟨i, Nat.le_of_lt hlt, ?_⟩
+        cases hk : ctx idx.ann (pushScalar ext idx (.int .u64 i)) with
+        | ok v => rw [hk] at h'; cases h'
+        | error e => rw [hk] at h'; exact h'
+      | none =>
+        simp only [hix] at h
+        have h' := hpass _ h (by
+          intro m hm
+          rcases bind_err_plain hm with h1 | ⟨_, _, h2⟩
+          · exact hval m h1
+          · rcases bind_err_plain h2 with h3 | ⟨_, _, h4⟩
+            · exact hkey _ m h3
+            · cases h4)
+        cases hv : ctx vals.ann (pushScalar ext vals (.str s)) with
+        | error e => rw [hv] at h'; exact .inl h'
+        | ok vals' =>
+          rw [hv] at h'
+          right
+          refine ⟨index.length, Nat.le_refl _, ?_⟩
+          cases hk : ctx idx.ann (pushScalar ext idx (.int .u64 index.length)) with
+          | ok v => rw [hk] at h'; cases h'
+          | error e => rw [hk] at h'; exact h'
+  · intro kp t v ivals i msg ann h
+    obtain ⟨v', hv'⟩ := setValidity_true_total v ivals.length
+    simp only [pushScalar, convLeaf, tryInto] at h
+    by_cases hr : t.inRange (i : Int) = true
+    · simp [hr, hv', bind, Except.bind, pure, Except.pure, SaModel.ctx] at h
+    · simp only [hr, Bool.false_eq_true, if_false, SaModel.fail, bind, Except.bind, SaModel.ctx, B.ann] at h
+      simp at h
+      exact ⟨h.1.symm, by simpa using hr, h.2.symm⟩
 
-/-- non-vacuity of (2), the dictionary key range: `Dictionary(Int8, Utf8)` holding 128 values refuses the 129th; the
-error is the dictionary's, `$.d` / `Dictionary(..)`, not the key builder's -/
+/-- non-vacuity of (5), the dictionary key range: `Dictionary(Int8, Utf8)` holding 128 values refuses the 129th; the
+error is the KEY builder's, `$.d.key` / `Int8` — the key child is the innermost field being processed (what the crate
+reports: `saharness build`, 200 distinct strings into `Dictionary(Int8, Utf8)`; corpus/build/c18_dict_children.jsonl) -/
 example :
     push {} (.dictionary "$.d" (.leaf "$.d.key" (.int .i8) none []) (.bytes "$.d.value" .utf8 none [0] [])
       ((List.range 128).map toString)) (.str "x") =
-    .error (.errCtx "out of range integral type conversion attempted" [("data_type", "Dictionary(..)"), ("field", "$.d")]) := by
+    .error (.errCtx "out of range integral type conversion attempted" [("data_type", "Int8"), ("field", "$.d.key")]) := by
   decide +kernel
+
+/-- non-vacuity of (5), the value child: `Dictionary(Int8, Int32)` receives `"5"` — `serialize_str is not supported`
+under `$.d.value` / `Int32`; `Dictionary(Int16, Date32)` (the default `Ext` parses nothing: message `ext`) receives `"x"` — the parse
+error under `$.d.value` / `Date32`; a call without a string form (`serialize_bytes`) is the dictionary's own -/
+example :
+    push {} (.dictionary "$.d" (.leaf "$.d.key" (.int .i8) none []) (.leaf "$.d.value" (.int .i32) none []) []) (.str "5") =
+      .error (.errCtx "serialize_str is not supported" [("data_type", "Int32"), ("field", "$.d.value")]) ∧
+    push {} (.dictionary "$.d" (.leaf "$.d.key" (.int .i16) none []) (.leaf "$.d.value" .date32 none []) []) (.str "x") =
+      .error (.errCtx "ext" [("data_type", "Date32"), ("field", "$.d.value")]) ∧
+    push {} (.dictionary "$.d" (.leaf "$.d.key" (.int .i8) none []) (.leaf "$.d.value" (.int .i32) none []) []) (.bytes [1]) =
+      .error (.errCtx "serialize_bytes is not supported" [("data_type", "Dictionary(..)"), ("field", "$.d")]) :=
+  ⟨by decide +kernel, by decide +kernel, by decide +kernel⟩
 
 /-- the mechanism of (3): a map builder whose last offset is `i32::MAX` refuses the next entry itself — `$.m` / `Map(..)`,
 not `$.m.entries` or the key column (the state is written down directly: a reachable one holds 2^31 − 1 entries) -/
@@ -344,8 +451,9 @@ example :
 /-- **Repaired** (`dict_null_repaired`): `d: Dictionary(Int8, Utf8)`, not nullable, receives `None`.  `Spec.blameDT`
 blames the column `$.d` (the documented mapping has no null for this FIELD), and so does the crate now:
 `DictionaryUtf8Builder::serialize_none` checks the nullability of its key builder and raises the error itself, under
-the dictionary's own path and type (the innermost SCHEMA field; `key` is not a field of the user's schema — a
-dictionary has no child fields in Arrow).  The row is inside every hypothesis of `C18_ser_blame_record`. -/
+the dictionary's own path and type (a null is a value of the dictionary FIELD — nullability is a property of `d`; no
+child has been handed anything when the dictionary builder's own code refuses it).  The row is inside every hypothesis
+of `C18_ser_blame_record`. -/
 theorem dict_null_repaired :
     blameRow {} [.mk "d" (.dictionary .int8 .utf8) false []] (.record "R" (.cons "d" 0 .none .nil)) = ["$.d"] ∧
     (do let root ← newRoot [.mk "d" (.dictionary .int8 .utf8) false []]
@@ -358,7 +466,8 @@ theorem dict_null_repaired :
 /-- **Pinned** (`dict_null_cell_pinned`): before ca6f255 `DictionaryUtf8Builder::serialize_none` was
 `try_(|| self.indices.serialize_none().ctx(self)).ctx(self)`: the key builder's `IntBuilder::serialize_none` refuses
 and annotates first, both `.ctx(self)` of the dictionary are no-ops, and the error named `$.d.key` / `Int8` — a
-position the specification does not blame (and not a field of the schema). -/
+position the specification does not blame for a null (the null is refused for the FIELD `d`; contrast
+`dict_value_child`: a string is handed to the value child, an index to the key child). -/
 theorem dict_null_cell_pinned :
     (ctx (B.dictionary "$.d" (.leaf "$.d.key" (.int .i8) none []) (.bytes "$.d.value" .utf8 none [0] []) []).ann
       (ctx (B.dictionary "$.d" (.leaf "$.d.key" (.int .i8) none []) (.bytes "$.d.value" .utf8 none [0] []) []).ann
@@ -366,6 +475,50 @@ theorem dict_null_cell_pinned :
       .error (.errCtx "Cannot push null for non-nullable array" [("data_type", "Int8"), ("field", "$.d.key")]) ∧
     "$.d.key" ∉ blameRow {} [.mk "d" (.dictionary .int8 .utf8) false []] (.record "R" (.cons "d" 0 .none .nil)) :=
   ⟨by decide +kernel, by decide +kernel⟩
+
+/-! ### the value child of a dictionary column (false alarm corrected 2026-09-29)
+
+C18 lists `dictionary` among the kinds of parent of the innermost failing field: while the dictionary builder hands a
+string to its value builder, the value child `{p}.value` is the innermost field being processed.  Until this correction
+`Spec.blameDT` (and the dictionary arm of `Build.pushScalar`) answered `{p}` / `Dictionary(..)` — an ANCESTOR of the
+failing field — and the crate's correct answer was listed as a finding (`C18-dict-value-child-path`, removed). -/
+
+/-- `d: Dictionary(Int8, Int32)` receives `"5"`: the value type takes no strings.  Specification and model (and the
+crate: `field: "$.d.value"`, `data_type: "Int32"`) name the value child; the row is inside every hypothesis of
+`C18_ser_blame_record` (`Int32` value builder: `B.refusesStr`, inside `Shape`). -/
+theorem dict_value_child :
+    blameRow {} [.mk "d" (.dictionary .int8 .int32) false []] (.record "R" (.cons "d" 0 (.str "5") .nil)) = ["$.d.value"] ∧
+    (do let root ← newRoot [.mk "d" (.dictionary .int8 .int32) false []]
+        push {} root (.record "R" (.cons "d" 0 (.str "5") .nil))) =
+      .error (.errCtx "serialize_str is not supported" [("data_type", "Int32"), ("field", "$.d.value")]) ∧
+    (["value"], "Int32") ∈ segsDT (.dictionary .int8 .int32) [] ∧
+    noRaw (.record "R" (.cons "d" 0 (.str "5") .nil)) = true ∧
+    total (.struct (Fields.ofList [.mk "d" (.dictionary .int8 .int32) false []])) false [] = true ∧
+    "$.d" ∉ blameRow {} [.mk "d" (.dictionary .int8 .int32) false []] (.record "R" (.cons "d" 0 (.str "5") .nil)) :=
+  ⟨by decide +kernel, by decide +kernel, by decide +kernel, by decide, by decide, by decide +kernel⟩
+
+/-- outside `Shape` (the value builder parses strings: `C18_ser_blame` does not cover it, the run-time predicate does):
+`d: Dictionary(Int16, Date32)` receives `"x"` — the specification blames the value child, the model reports the parse
+error there; a NESTED dictionary hands the string on: `Dictionary(Int8, Dictionary(Int8, Int32))` blames
+`$.d.value.value`; a unit variant's name is a string too; a call without a string form is the dictionary's own. -/
+theorem dict_value_child_more :
+    blameRow {} [.mk "d" (.dictionary .int16 .date32) false []] (.record "R" (.cons "d" 0 (.str "x") .nil)) = ["$.d.value"] ∧
+    (do let root ← newRoot [.mk "d" (.dictionary .int16 .date32) false []]
+        push {} root (.record "R" (.cons "d" 0 (.str "x") .nil))) =
+      .error (.errCtx "ext" [("data_type", "Date32"), ("field", "$.d.value")]) ∧
+    blameRow {} [.mk "d" (.dictionary .int8 (.dictionary .int8 .int32)) false []] (.record "R" (.cons "d" 0 (.int .i32 7) .nil)) =
+      ["$.d.value.value"] ∧
+    (do let root ← newRoot [.mk "d" (.dictionary .int8 (.dictionary .int8 .int32)) false []]
+        push {} root (.record "R" (.cons "d" 0 (.int .i32 7) .nil))) =
+      .error (.errCtx "serialize_str is not supported" [("data_type", "Int32"), ("field", "$.d.value.value")]) ∧
+    blameRow {} [.mk "d" (.dictionary .int8 .int32) false []] (.record "R" (.cons "d" 0 (.unitVariant "E" 0 "A") .nil)) =
+      ["$.d.value"] ∧
+    blameRow {} [.mk "d" (.dictionary .int8 .int32) false []] (.record "R" (.cons "d" 0 (.bytes [1]) .nil)) = ["$.d"] ∧
+    (do let root ← newRoot [.mk "d" (.dictionary .int8 .int32) false []]
+        push {} root (.record "R" (.cons "d" 0 (.bytes [1]) .nil))) =
+      .error (.errCtx "serialize_bytes is not supported" [("data_type", "Dictionary(..)"), ("field", "$.d")]) :=
+  ⟨by decide +kernel, by decide +kernel, by decide +kernel, by decide +kernel, by decide +kernel, by decide +kernel,
+    by decide +kernel⟩
 
 /-! ### non-vacuity OUTSIDE `Safe`
 
